@@ -894,6 +894,10 @@ func (self *Pipestance) Lock() error {
 		return &PipestanceLockedError{self.node.top.GetPsid(), self.GetPath()}
 	}
 	verifEvent("LockCheck", "path", self.GetPath())
+	// A signal must not be handled between the creation of the lock file
+	// and the registration of the handler which removes it.
+	util.EnterCriticalSection()
+	defer util.ExitCriticalSection()
 	// Create the lock file exclusively, so that if two instances get
 	// here at the same time only one of them takes the lock.
 	if f, err := os.OpenFile(self.metadata.MetadataFilePath(Lock),
